@@ -47,6 +47,9 @@ pub struct Case {
     pub budget: u64,
     pub tape: TapeSpec,
     pub kind: String,
+    /// order in which the parameter builders are called: 0 = c, tol, epoch/eps, kernel; 1 = kernel first, then the rest reversed
+    #[serde(default)]
+    pub ctor: u8,
 }
 
 pub struct C10;
@@ -242,11 +245,19 @@ impl C10 {
         let res = {
             install_tick_observer(ticks.clone(), case.budget);
             let _tg = TickGuard;
-            let params = SVCParameters::default()
-                .with_c(T::from_f64(c_eff).unwrap())
-                .with_tol(T::from_f64(tol_eff).unwrap())
-                .with_epoch(case.epoch)
-                .with_kernel(kern);
+            let params = if case.ctor % 2 == 0 {
+                SVCParameters::default()
+                    .with_c(T::from_f64(c_eff).unwrap())
+                    .with_tol(T::from_f64(tol_eff).unwrap())
+                    .with_epoch(case.epoch)
+                    .with_kernel(kern)
+            } else {
+                SVCParameters::default()
+                    .with_kernel(kern)
+                    .with_epoch(case.epoch)
+                    .with_tol(T::from_f64(tol_eff).unwrap())
+                    .with_c(T::from_f64(c_eff).unwrap())
+            };
             guarded(|| SVC::fit(&x, &y, params))
         };
         let log = guard.log();
@@ -455,11 +466,19 @@ impl C10 {
         let res = {
             install_tick_observer(ticks.clone(), case.budget);
             let _tg = TickGuard;
-            let params = SVRParameters::default()
-                .with_c(T::from_f64(c_eff).unwrap())
-                .with_tol(T::from_f64(tol_eff).unwrap())
-                .with_eps(T::from_f64(eps_eff).unwrap())
-                .with_kernel(kern);
+            let params = if case.ctor % 2 == 0 {
+                SVRParameters::default()
+                    .with_c(T::from_f64(c_eff).unwrap())
+                    .with_tol(T::from_f64(tol_eff).unwrap())
+                    .with_eps(T::from_f64(eps_eff).unwrap())
+                    .with_kernel(kern)
+            } else {
+                SVRParameters::default()
+                    .with_kernel(kern)
+                    .with_eps(T::from_f64(eps_eff).unwrap())
+                    .with_tol(T::from_f64(tol_eff).unwrap())
+                    .with_c(T::from_f64(c_eff).unwrap())
+            };
             guarded(|| SVR::fit(&x, &y, params))
         };
         let log = guard.log();
@@ -864,7 +883,7 @@ fn gen_case(batch: &str, index: u64, seed: u64) -> Case {
                 1 => KSpec { kind: "rbf".into(), gamma: 0.5, degree: 0.0, coef0: 0.0 },
                 _ => KSpec { kind: "poly".into(), gamma: 0.5, degree: 2.0, coef0: 1.0 },
             };
-            Case { model: "svc".into(), x, y, kernel, c: [0.1, 1.0, 10.0][(index % 3) as usize], tol: 1e-3, epoch: 1, eps: 0.0, f32m: false, queries: vec![vec![0.25; small_datasets()[*di].0[0].len()]], budget: DEFAULT_BUDGET, tape: TapeSpec::prng(tape_seed).with_prefix(words.clone()), kind: "forced-permutation/exhaustive".into() }
+            Case { model: "svc".into(), x, y, kernel, c: [0.1, 1.0, 10.0][(index % 3) as usize], tol: 1e-3, epoch: 1, eps: 0.0, f32m: false, queries: vec![vec![0.25; small_datasets()[*di].0[0].len()]], budget: DEFAULT_BUDGET, tape: TapeSpec::prng(tape_seed).with_prefix(words.clone()), kind: "forced-permutation/exhaustive".into(), ctor: (seed % 2) as u8 }
         }
         "kernels" | "kernels-f32" => {
             let m = pr.usize_in(2, 10);
@@ -882,7 +901,7 @@ fn gen_case(batch: &str, index: u64, seed: u64) -> Case {
                 // every small integer degree, including the constant kernel (degree 0)
                 kernel.degree = *pr.pick(&[0.0, 0.0, 1.0, 2.0, 3.0, 4.0, 5.0]);
             }
-            Case { model: "kernel".into(), x, y: vec![], kernel, c: 1.0, tol: 1e-3, epoch: 1, eps: 0.0, f32m, queries: vec![], budget: 0, tape: TapeSpec::prng(tape_seed), kind: "kernel-closed-form".into() }
+            Case { model: "kernel".into(), x, y: vec![], kernel, c: 1.0, tol: 1e-3, epoch: 1, eps: 0.0, f32m, queries: vec![], budget: 0, tape: TapeSpec::prng(tape_seed), kind: "kernel-closed-form".into(), ctor: (seed % 2) as u8 }
         }
         "svr-hard" | "svr-hard-tight" => {
             // the slowly converging corner the fast batch leaves out: large C times large kernel values
@@ -901,7 +920,7 @@ fn gen_case(batch: &str, index: u64, seed: u64) -> Case {
                 _ => KSpec { kind: "rbf".into(), gamma: *pr.pick(&[0.1, 0.5]), degree: 0.0, coef0: 0.0 },
             };
             let queries = (0..3).map(|_| (0..p).map(|_| r.range(-3.0, 3.0)).collect()).collect();
-            Case { model: "svr".into(), x, y, kernel, c: 100.0, tol: if batch == "svr-hard-tight" { 1e-4 } else { 1e-3 }, epoch: 0, eps: *pr.pick(&[0.0, 0.1]), f32m: false, queries, budget: 4_000_000_000, tape: TapeSpec::prng(tape_seed), kind: "svr-hard".into() }
+            Case { model: "svr".into(), x, y, kernel, c: 100.0, tol: if batch == "svr-hard-tight" { 1e-4 } else { 1e-3 }, epoch: 0, eps: *pr.pick(&[0.0, 0.1]), f32m: false, queries, budget: 4_000_000_000, tape: TapeSpec::prng(tape_seed), kind: "svr-hard".into(), ctor: (seed % 2) as u8 }
         }
         "svr-large-features" => {
             // large kernel curvature (linear kernel on features of magnitude 30..300, quadratic on ~10): steps in
@@ -917,7 +936,7 @@ fn gen_case(batch: &str, index: u64, seed: u64) -> Case {
             let eps = *pr.pick(&[0.1, 0.2]);
             let y: Vec<f64> = x.iter().map(|row| row.iter().zip(&coef).map(|(a, b)| a * b).sum::<f64>() + 0.5 * eps * r.range(-1.0, 1.0)).collect();
             let kernel = if quad { KSpec { kind: "poly".into(), gamma: 0.5, degree: 2.0, coef0: 1.0 } } else { KSpec { kind: "linear".into(), gamma: 0.0, degree: 0.0, coef0: 0.0 } };
-            Case { model: "svr".into(), x, y, kernel, c: *pr.pick(&[0.1, 1.0]), tol: 1e-3, epoch: 0, eps, f32m: f32v, queries: vec![], budget: 500_000_000, tape: TapeSpec::prng(tape_seed), kind: "svr-large-features".into() }
+            Case { model: "svr".into(), x, y, kernel, c: *pr.pick(&[0.1, 1.0]), tol: 1e-3, epoch: 0, eps, f32m: f32v, queries: vec![], budget: 500_000_000, tape: TapeSpec::prng(tape_seed), kind: "svr-large-features".into(), ctor: (seed % 2) as u8 }
         }
         "svr-f32-resolution" => {
             // single precision with targets so large that tol lies below the resolution of the gradient values
@@ -928,7 +947,7 @@ fn gen_case(batch: &str, index: u64, seed: u64) -> Case {
             let yoff = *pr.pick(&[1000.0, -1000.0, 10_000.0, 100_000.0]);
             let y: Vec<f64> = (0..n).map(|_| yoff + r.range(-1.5, 1.5)).collect();
             let kernel = if pr.chance(0.7) { KSpec { kind: "rbf".into(), gamma: *pr.pick(&[0.5, 1.0]), degree: 0.0, coef0: 0.0 } } else { KSpec { kind: "linear".into(), gamma: 0.0, degree: 0.0, coef0: 0.0 } };
-            Case { model: "svr".into(), x, y, kernel, c: *pr.pick(&[10.0, 100.0]), tol: *pr.pick(&[1e-3, 1e-4]), epoch: 0, eps: *pr.pick(&[0.0, 0.1]), f32m: true, queries: vec![], budget: 500_000_000, tape: TapeSpec::prng(tape_seed), kind: "svr-f32-resolution".into() }
+            Case { model: "svr".into(), x, y, kernel, c: *pr.pick(&[10.0, 100.0]), tol: *pr.pick(&[1e-3, 1e-4]), epoch: 0, eps: *pr.pick(&[0.0, 0.1]), f32m: true, queries: vec![], budget: 500_000_000, tape: TapeSpec::prng(tape_seed), kind: "svr-f32-resolution".into(), ctor: (seed % 2) as u8 }
         }
         "svr" | "svr-f32" => {
             let n = pr.usize_in(4, 40);
@@ -960,7 +979,7 @@ fn gen_case(batch: &str, index: u64, seed: u64) -> Case {
             }
             let tol = if kernel.kind == "poly" && tol < 1e-3 { 1e-3 } else { tol };
             let budget = 500_000_000;
-            Case { model: "svr".into(), x, y, kernel, c, tol, epoch: 0, eps: if pr.chance(0.5) { *pr.pick(&[0.0, 0.05, 0.1, 0.5]) } else { pr.range(0.0, 0.5) }, f32m, queries, budget, tape: TapeSpec::prng(tape_seed), kind: "svr".into() }
+            Case { model: "svr".into(), x, y, kernel, c, tol, epoch: 0, eps: if pr.chance(0.5) { *pr.pick(&[0.0, 0.05, 0.1, 0.5]) } else { pr.range(0.0, 0.5) }, f32m, queries, budget, tape: TapeSpec::prng(tape_seed), kind: "svr".into(), ctor: (seed % 2) as u8 }
         }
         _ => {
             // SVC batches
@@ -1014,7 +1033,7 @@ fn gen_case(batch: &str, index: u64, seed: u64) -> Case {
                 }
                 _ => panic!("unknown batch {}", batch),
             }
-            Case { model: "svc".into(), x, y, kernel, c, tol, epoch, eps: 0.0, f32m, queries, budget: DEFAULT_BUDGET, tape, kind }
+            Case { model: "svc".into(), x, y, kernel, c, tol, epoch, eps: 0.0, f32m, queries, budget: DEFAULT_BUDGET, tape, kind, ctor: (seed % 2) as u8 }
         }
     }
 }
